@@ -4035,6 +4035,10 @@ EmitX86RFromM:
   if (ASMJIT_UNLIKELY(rm_rel->as<Mem>().has_offset() || (rm_info & kX86MemInfo_Index)))
     goto InvalidInstruction;
 
+  // Emit override prefixes (must precede REX, which has to be the last prefix).
+  writer.emit_segment_override(rm_rel->as<Mem>().segment_id());
+  writer.emit_address_override((rm_info & _address_override_mask()) != 0);
+
   // Emit mandatory instruction prefix.
   writer.emit_pp(opcode.v);
 
@@ -4052,10 +4056,6 @@ EmitX86RFromM:
     op_reg &= 0x07;
     rb_reg &= 0x07;
   }
-
-  // Emit override prefixes.
-  writer.emit_segment_override(rm_rel->as<Mem>().segment_id());
-  writer.emit_address_override((rm_info & _address_override_mask()) != 0);
 
   // Emit instruction opcodes.
   writer.emit_mm_and_opcode(opcode.v);
